@@ -22,6 +22,7 @@ VARIABLES ends, pieces,      \* the function being integrated (never change)
 
 vars == << ends, pieces, mode, k0, i, knot, out >>
 
+Fma(fa, fb, fc) == Add(Mul(fa, fb), fc)      \* exact arithmetic: fused = unfused
 A == INSTANCE PolyAlgebra
 Lt(a, b) == Leq(a, b) /\ a # b
 NoNaN(a) == FALSE
